@@ -89,12 +89,7 @@ def mk_tiled(gbox_case, tiles):
 def layout_class(shape, tiles, ye, xe):
     n = (len(ye) - 1) * (len(xe) - 1)
     one_px = any(b - a == 1 for a, b in zip(ye, ye[1:])) or any(b - a == 1 for a, b in zip(xe, xe[1:]))
-    lab = tiles["kind"]
-    if n == 1:
-        lab += "/single"
-    elif one_px:
-        lab += "/has_1px"
-    return lab
+    return tiles["kind"] + ("/single" if n == 1 else "/multi+1px" if one_px else "/multi")
 
 
 @st.composite
@@ -104,10 +99,18 @@ def tilings(draw, shape, maxt=10):
 
     def reg(n):
         lo = -(-n // maxt)
-        return draw(st.one_of(st.just(lo), st.integers(lo, n), st.just(max(lo, (n + 1) // 2)), st.just(n), st.just(n + 3)))
+        how = draw(st.sampled_from(["lo", "lo", "rand", "rand", "rand", "half", "whole", "over"]))
+        if how == "rand":
+            return draw(st.integers(lo, max(lo, (n + 1) // 2)))
+        return {"lo": lo, "half": max(lo, (n + 1) // 2), "whole": n, "over": n + 3}[how]
 
     def var(n):
         kmax = min(n, maxt)
+        if n >= 4 and draw(st.integers(0, 2)) == 0:  # a few wide chunks of uneven size
+            step = draw(st.integers(max(2, -(-n // kmax)), max(2, n // 2)))
+            cuts = set(range(step, n - 1, step)) if draw(st.booleans()) else set(range(n - step, 1, -step))
+            e = [0] + sorted(cuts) + [n]
+            return [b - a for a, b in zip(e, e[1:])]
         cuts = set(draw(st.lists(st.integers(1, n - 1), unique=True, max_size=kmax - 1))) if n > 1 else set()
         if n > 2 and len(cuts) < kmax - 1 and draw(st.booleans()):
             cuts.add(draw(st.sampled_from([1, n - 1])))  # 1-px chunk at a border
@@ -185,7 +188,7 @@ def _interval(draw, cls, n, edges, far, maxlen=3.0):
 
 
 @st.composite
-def pix_queries(draw, shape, ye, xe, far=(10, 100), kinds=("box", "tri", "L", "hole"), maxlen=3.0):
+def pix_queries(draw, shape, ye, xe, far=(10, 100), kinds=("box", "box", "tri", "tri", "L", "L", "hole", "hole", "two"), maxlen=3.0):
     ny, nx = shape
     place = draw(st.sampled_from(["inside", "inside", "inside", "straddle", "straddle", "straddle", "cover", "outside"]))
     anyc = ["inside", "cover", "straddle_lo", "straddle_hi"]
@@ -208,9 +211,15 @@ def pix_queries(draw, shape, ye, xe, far=(10, 100), kinds=("box", "tri", "L", "h
         drop = draw(st.integers(0, 3))
         out["ext"] = [p for i, p in enumerate(box) if i != drop]
     elif kind == "L" and roomy:
-        xm = _coord(draw, x0 + q, x1 - q, xe)
-        ym = _coord(draw, y0 + q, y1 - q, ye)
         corner = draw(st.integers(0, 3))
+        if draw(st.booleans()):
+            xm = _coord(draw, x0 + q, x1 - q, xe)
+            ym = _coord(draw, y0 + q, y1 - q, ye)
+        else:  # thin arms: the notch takes most of the box, so whole tiles fall into it
+            mx = min(draw(st.sampled_from([q, 0.25, 0.5, 1.0])), (x1 - x0) / 2)
+            my = min(draw(st.sampled_from([q, 0.25, 0.5, 1.0])), (y1 - y0) / 2)
+            xm = x0 + mx if corner in (1, 2) else x1 - mx
+            ym = y0 + my if corner in (2, 3) else y1 - my
         # remove the quadrant at the chosen corner
         if corner == 0:  # (x0,y0)
             out["ext"] = [[xm, y0], [x1, y0], [x1, y1], [x0, y1], [x0, ym], [xm, ym]]
@@ -221,22 +230,55 @@ def pix_queries(draw, shape, ye, xe, far=(10, 100), kinds=("box", "tri", "L", "h
         else:  # (x0,y1)
             out["ext"] = [[x0, y0], [x1, y0], [x1, y1], [xm, y1], [xm, ym], [x0, ym]]
     elif kind == "hole" and roomy:
-        hx = sorted([_coord(draw, x0 + q, x1 - q, xe), _coord(draw, x0 + q, x1 - q, xe)])
-        hy = sorted([_coord(draw, y0 + q, y1 - q, ye), _coord(draw, y0 + q, y1 - q, ye)])
+        if draw(st.booleans()):
+            hx = sorted([_coord(draw, x0 + q, x1 - q, xe), _coord(draw, x0 + q, x1 - q, xe)])
+            hy = sorted([_coord(draw, y0 + q, y1 - q, ye), _coord(draw, y0 + q, y1 - q, ye)])
+        else:  # thin frame: whole tiles fall into the hole
+            mx = min(draw(st.sampled_from([q, 0.25, 0.5, 1.0])), (x1 - x0) / 4)
+            my = min(draw(st.sampled_from([q, 0.25, 0.5, 1.0])), (y1 - y0) / 4)
+            hx, hy = [x0 + mx, x1 - mx], [y0 + my, y1 - my]
         if hx[0] == hx[1]:
             hx = [x0 + q, x1 - q]
         if hy[0] == hy[1]:
             hy = [y0 + q, y1 - q]
         out["holes"] = [[[hx[0], hy[0]], [hx[0], hy[1]], [hx[1], hy[1]], [hx[1], hy[0]]]]
-    elif kind in ("L", "hole"):
+    elif kind == "two" and roomy:
+        # multipolygon: two strips (or two opposite corner boxes) of the anchor box, whole tiles may lie between them
+        mx = min(draw(st.sampled_from([q, 0.25, 0.5, 1.0])), (x1 - x0) / 4)
+        my = min(draw(st.sampled_from([q, 0.25, 0.5, 1.0])), (y1 - y0) / 4)
+        how = draw(st.sampled_from(["x", "y", "diag"]))
+        if how == "x":
+            a, b = (x0, y0, x0 + mx, y1), (x1 - mx, y0, x1, y1)
+        elif how == "y":
+            a, b = (x0, y0, x1, y0 + my), (x0, y1 - my, x1, y1)
+        else:
+            a, b = (x0, y0, x0 + mx, y0 + my), (x1 - mx, y1 - my, x1, y1)
+        out["ext"] = [[a[0], a[1]], [a[2], a[1]], [a[2], a[3]], [a[0], a[3]]]
+        out["ext2"] = [[b[0], b[1]], [b[2], b[1]], [b[2], b[3]], [b[0], b[3]]]
+    elif kind in ("L", "hole", "two"):
         out["kind"] = "box"
     return out
+
+
+def _parts(q):
+    """Query as a list of (exterior, holes) polygons in pixel coordinates."""
+    out = [(q["ext"], q.get("holes") or [])]
+    if q.get("ext2"):
+        out.append((q["ext2"], []))
+    return out
+
+
+def _mk_poly(parts):
+    import shapely
+
+    polys = [shapely.Polygon(e, h or None) for e, h in parts]
+    return polys[0] if len(polys) == 1 else shapely.MultiPolygon(polys)
 
 
 def _shp(q):
     import shapely
 
-    p = shapely.Polygon(q["ext"], q.get("holes") or None)
+    p = _mk_poly(_parts(q))
     if not p.is_valid or p.area <= 0:
         return None
     return p
@@ -345,13 +387,12 @@ def o_geom_same(case, T):
         return
     gbt, ye, xe = mk_tiled(tb["gbox"], tb["tiles"])
     A = mk_affine(tb["gbox"]["affine"])
-    wext = _world(A, q["ext"])
-    wholes = [_world(A, h) for h in q["holes"]]
-    tol = _tol_px(A, wext, tb["gbox"]["shape"])
+    wparts = [(_world(A, e), [_world(A, h) for h in hh]) for e, hh in _parts(q)]
+    tol = _tol_px(A, [p for e, _ in wparts for p in e], tb["gbox"]["shape"])
     if tol > 0.02:
         T.exclude("ill_conditioned_placement")
         return
-    g = Geometry(shapely.Polygon(wext, wholes or None), mk_crs(case["qcrs"]))
+    g = Geometry(_mk_poly(wparts), mk_crs(case["qcrs"]))
     got = _check_indexes(list(gbt.tiles(g)), ye, xe, "tiles(geometry)")
     gset = set(got)
     idx, req, forb = _required_forbidden(Q, ye, xe, tol)
@@ -364,7 +405,7 @@ def o_geom_same(case, T):
                     t, ye[t[0]], ye[t[0] + 1], xe[t[1]], xe[t[1] + 1], float(Q.distance(shapely.box(xe[t[1]], ye[t[0]], xe[t[1] + 1], ye[t[0] + 1]))), q["kind"])
     namb = int((~req & ~forb).sum())
     _track_query(T, case, q, layout_class(tb["gbox"]["shape"], tb["tiles"], ye, xe), tb["gbox"]["klass"], int(req.sum()), len(idx), namb)
-    if q["kind"] in ("L", "hole", "tri"):
+    if q["kind"] in ("L", "hole", "tri", "two"):
         # tiles inside the bounding box of the query that must be filtered out
         bb = shapely.box(*Q.bounds)
         boxes, _ = _tile_boxes(ye, xe)
@@ -378,7 +419,7 @@ def o_geom_same(case, T):
 def s_bbox_same(draw):
     tb = draw(tiled_boxes(allow_none=True))
     ye, xe = layout_edges(tb["gbox"]["shape"], tb["tiles"])
-    q = draw(pix_queries(tb["gbox"]["shape"], ye, xe, kinds=("box", "box", "tri")))
+    q = draw(pix_queries(tb["gbox"]["shape"], ye, xe, kinds=("box", "box", "tri", "two")))
     label = tb["gbox"]["crs"]["label"] if tb["gbox"]["crs"] else None
     qcrs = draw(spelled(label)) if label else None
     return {"tb": tb, "q": q, "qcrs": qcrs}
@@ -423,7 +464,7 @@ def o_bbox_same(case, T):
         _track_query(T, case, q, layout, tb["gbox"]["klass"], nreq_pix, len(idx), namb)
         return
     # --- (2) world bounding box of the query in the CRS of the raster
-    wpts = _world(A, q["ext"])
+    wpts = [p for e, _ in _parts(q) for p in _world(A, e)]
     wx0, wx1 = min(p[0] for p in wpts), max(p[0] for p in wpts)
     wy0, wy1 = min(p[1] for p in wpts), max(p[1] for p in wpts)
     tol = _tol_px(A, wpts, tb["gbox"]["shape"])
@@ -511,13 +552,13 @@ def lin_parts(draw):
 
 
 @st.composite
-def placed_boxes(draw, label, other, maxt=10, max_side=30):
+def placed_boxes(draw, label, other, maxt=10, max_side=30, extents=(2e3, 2e4, 1e5, 2.5e5)):
     """Recipe for a raster centred at a lon/lat inside the valid area of ``label`` and ``other``."""
     x0, y0, x1, y1 = _common_box(label, other)
     lon = draw(st.integers(math.ceil(x0 * 100), math.floor(x1 * 100))) / 100
     lat = draw(st.integers(math.ceil(y0 * 100), math.floor(y1 * 100))) / 100
     shape = draw(shapes(max_side=max_side))
-    extent_m = draw(st.sampled_from([2e3, 2e4, 1e5, 2.5e5]))
+    extent_m = draw(st.sampled_from(list(extents)))
     lin, klass = draw(lin_parts())
     return {
         "crs": draw(spelled(label)), "lonlat": [lon, lat], "shape": shape, "px": min(extent_m / max(shape), MAX_PX_M),
@@ -610,35 +651,39 @@ def o_query_other(case, T):
     def to_b(ring_px):
         return _project(la, lb, _apply(A, ring_px))
 
-    ext_b = to_b(q["ext"])
-    holes_b = [to_b(h) for h in q["holes"]]
-    if not all(np.isfinite(r).all() for r in [ext_b] + holes_b):
+    parts_b = [(to_b(e), [to_b(h) for h in hh]) for e, hh in _parts(q)]  # the query polygon(s) in CRS b
+    if not all(np.isfinite(r).all() for e, hh in parts_b for r in [e] + hh):
         T.exclude("query_not_projectable")
         return
     if mode == "bbox":
-        bx0, by0 = ext_b.min(axis=0)
-        bx1, by1 = ext_b.max(axis=0)
+        allpts = np.concatenate([e for e, _ in parts_b])
+        bx0, by0 = allpts.min(axis=0)
+        bx1, by1 = allpts.max(axis=0)
         if not (bx0 < bx1 and by0 < by1):
             T.exclude("degenerate_query")
             return
-        rings_b = [np.array([[bx0, by0], [bx1, by0], [bx1, by1], [bx0, by1]])]
+        oracle_parts = [(np.array([[bx0, by0], [bx1, by0], [bx1, by1], [bx0, by1]]), [])]
     else:
-        rings_b = [ext_b] + holes_b
+        oracle_parts = parts_b
     # the query as it really lies in the pixel plane of the raster (edges straight in ITS crs -> curved here)
-    dense_px, delta = [], 0.0
-    for r in rings_b:
-        D = _apply(iA, _project(lb, la, _ring_dense(r, EXTRA)))
-        if not np.isfinite(D).all():
-            T.exclude("query_not_projectable")
-            return
-        dense_px.append(D)
-        delta = max(delta, _chord_dev(D, EXTRA + 1))
-    Qtrue = shapely.Polygon(dense_px[0], dense_px[1:] or None)
+    delta = 0.0
+    dense_parts = []
+    for e, hh in oracle_parts:
+        rings = []
+        for r in [e] + hh:
+            D = _apply(iA, _project(lb, la, _ring_dense(r, EXTRA)))
+            if not np.isfinite(D).all():
+                T.exclude("query_not_projectable")
+                return
+            rings.append(D)
+            delta = max(delta, _chord_dev(D, EXTRA + 1))
+        dense_parts.append((rings[0], rings[1:]))
+    Qtrue = _mk_poly(dense_parts)
     if not Qtrue.is_valid or Qtrue.area <= 0:
-        T.exclude("degenerate_query")
+        T.exclude("reprojected_query_invalid")
         return
     px_m = rec["px"]
-    tol = 1e-6 + 1e-3 / px_m + _tol_px(A, _apply(A, q["ext"]).tolist(), rec["shape"])
+    tol = 1e-6 + 1e-3 / px_m + _tol_px(A, [p for e, _ in _parts(q) for p in _apply(A, e).tolist()], rec["shape"])
     band = 1.1 * delta + tol
     idx, req, forb = _required_forbidden(Qtrue, ye, xe, tol, erode=band)
     crs_b = mk_crs(case["qcrs"])
@@ -647,7 +692,7 @@ def o_query_other(case, T):
         got = set(_check_indexes(list(gbt.tiles(wb)), ye, xe, "tiles(bbox, other crs)"))
         ry, rx = _check_ranges(gbt.range_from_bbox(wb), ye, xe)
     else:
-        g = Geometry(shapely.Polygon(ext_b, holes_b or None), crs_b)
+        g = Geometry(_mk_poly(parts_b), crs_b)
         got = set(_check_indexes(list(gbt.tiles(g)), ye, xe, "tiles(geometry, other crs)"))
         ry = rx = None
     for t, r, f in zip(idx, req, forb):
@@ -661,7 +706,7 @@ def o_query_other(case, T):
                     lb, la, t, ye[t[0]], ye[t[0] + 1], xe[t[1]], xe[t[1] + 1], band)
     namb = int((~req & ~forb).sum())
     T.cls("mode:" + mode)
-    T.cls("pair:%s>%s" % (lb, la))
+    T.cls("crs:%s>%s" % (crs_kind(lb), crs_kind(la)))
     T.cls("delta<0.01px" if delta < 0.01 else "delta<0.1px" if delta < 0.1 else "delta>=0.1px")
     _track_query(T, {"tb": {"tiles": rec["tiles"], "gbox": {"shape": rec["shape"]}}}, q, layout_class(rec["shape"], rec["tiles"], ye, xe), rec["klass"], int(req.sum()), len(idx), namb)
 
@@ -719,8 +764,8 @@ def s_graph_linear(draw):
     sgx = draw(st.sampled_from([1, 1, 1, -1]))
     sgy = draw(st.sampled_from([1, 1, 1, -1]))
 
-    def place(n, ext):
-        cls = draw(st.sampled_from(["aligned", "ov_int", "ov_int", "ov_sub", "ov_sub", "touch_lo", "touch_hi", "gap_lo", "gap_hi"]))
+    def place(n, ext, k, allowed):
+        cls = draw(st.sampled_from(allowed))
         ce = math.ceil(ext)
         if cls == "aligned":
             lo = 0.0
@@ -733,12 +778,22 @@ def s_graph_linear(draw):
         elif cls == "touch_hi":
             lo = float(n)
         else:
-            g = draw(st.sampled_from([1.0, 1.5, 2.0, 3.0, 6.0, 10.0, 100.0, 100.0 * n]))
+            # gap of m pixels of the coarser grid (m < 2: emptiness not decided)
+            m = draw(st.sampled_from([0.5, 1.0, 2.5, 2.5, 3.0, 6.0, 10.0, 100.0, 100.0 * n]))
+            g = m * max(1.0, k)
             lo = -ext - g if cls == "gap_lo" else n + g
         return lo, cls
 
-    lox, cx = place(nx, kx * snx)
-    loy, cy = place(ny, ky * sny)
+    OV = ["aligned", "ov_int", "ov_int", "ov_sub", "ov_sub"]
+    rel = draw(st.sampled_from(["overlap"] * 5 + ["touch"] + ["gap"] * 2))
+    if rel == "overlap":
+        ax, ay = OV, OV
+    else:
+        main = ["touch_lo", "touch_hi"] if rel == "touch" else ["gap_lo", "gap_hi"]
+        other = OV + ["touch_lo", "touch_hi"] + (["gap_lo", "gap_hi"] if rel == "gap" else [])
+        ax, ay = (main, other) if draw(st.booleans()) else (other, main)
+    lox, cx = place(nx, kx * snx, kx, ax)
+    loy, cy = place(ny, ky * sny, ky, ay)
     tx = lox if sgx > 0 else lox + kx * snx
     ty = loy if sgy > 0 else loy + ky * sny
     M = Affine(sgx * kx, 0.0, tx, 0.0, sgy * ky, ty)  # src pixel -> dst pixel
@@ -839,7 +894,8 @@ def o_graph_linear(case, T):
     if any(abs(v - round(v)) > 1e-9 for v in (c, f)):
         T.cls("sub_pixel_shift")
     T.cls("box:" + ("rotated" if any(k in case["dst"]["gbox"]["klass"] for k in ("r90", "r270", "shear", "pyth", "rot")) else "axis_aligned"))
-    T.cls("tiles:" + layout_class(case["dst"]["gbox"]["shape"], case["dst"]["tiles"], dye, dxe) + "|" + layout_class(case["src"]["gbox"]["shape"], case["src"]["tiles"], sye, sxe))
+    T.cls("dst_tiles:" + layout_class(case["dst"]["gbox"]["shape"], case["dst"]["tiles"], dye, dxe))
+    T.cls("src_tiles:" + layout_class(case["src"]["gbox"]["shape"], case["src"]["tiles"], sye, sxe))
     _track_graph(T, case, rel, nd_with, (len(dye) - 1) * (len(dxe) - 1), decided, (case["rel"],))
 
 
@@ -862,7 +918,7 @@ def s_graph_rot(draw):
         ox = draw(st.integers(-10, 10)) / 16 * nx
         oy = draw(st.integers(-10, 10)) / 16 * ny
     else:
-        g = draw(st.sampled_from([0.0, 0.5, 1.0])) - 0.3 * r if place == "near" else draw(st.sampled_from([2.5, 3.0, 10.0, 100.0, 100.0 * max(nx, ny)]))
+        g = draw(st.sampled_from([0.0, 0.5, 1.0])) - 0.3 * r if place == "near" else max(1.0, k) * draw(st.sampled_from([2.5, 3.0, 10.0, 100.0, 100.0 * max(nx, ny)]))
         side = draw(st.sampled_from(["x+", "x-", "y+", "y-"]))
         ox = {"x+": nx / 2 + r + g, "x-": -(nx / 2 + r + g)}.get(side, draw(st.integers(-8, 8)) / 16 * nx)
         oy = {"y+": ny / 2 + r + g, "y-": -(ny / 2 + r + g)}.get(side, draw(st.integers(-8, 8)) / 16 * ny)
@@ -958,7 +1014,9 @@ def o_graph_rot(case, T):
 @st.composite
 def s_graph_other(draw):
     la, lb = draw(st.sampled_from(LABEL_PAIRS))
-    dst = draw(placed_boxes(la, lb, maxt=5, max_side=24))
+    place = draw(st.sampled_from(["overlap", "overlap", "overlap", "overlap", "near", "gap", "gap", "far"]))
+    # far apart (>= 100 px) only fits into the common valid area when the rasters are small
+    dst = draw(placed_boxes(la, lb, maxt=5, max_side=24, extents=(2e3, 2e4) if place == "far" else (2e3, 2e4, 1e5, 2.5e5)))
     ny, nx = dst["shape"]
     sshape = draw(shapes(max_side=24))
     sny, snx = sshape
@@ -969,12 +1027,16 @@ def s_graph_other(draw):
     ratio = px_s / dst["px"]  # src pixel size in dst pixels
     lin, klass = draw(lin_parts())
     r = 0.5 * ratio * math.hypot(snx, sny) * 1.3
-    place = draw(st.sampled_from(["overlap", "overlap", "overlap", "near", "gap", "gap"]))
     if place == "overlap":
         ox = draw(st.integers(-10, 10)) / 16 * nx
         oy = draw(st.integers(-10, 10)) / 16 * ny
     else:
-        g = draw(st.sampled_from([0.0, 1.0, 2.0])) - 0.3 * r if place == "near" else draw(st.sampled_from([3.0, 5.0, 10.0, 100.0, 10.0 * max(nx, ny), 100.0 * max(nx, ny)]))
+        if place == "near":
+            g = draw(st.sampled_from([0.0, 1.0, 2.0])) - 0.3 * r
+        elif place == "gap":
+            g = max(1.0, ratio) * draw(st.sampled_from([3.0, 5.0, 10.0, 30.0]))
+        else:
+            g = max(1.0, ratio) * draw(st.sampled_from([120.0, 300.0, 10.0 * max(nx, ny) + 100, 100.0 * max(nx, ny)]))
         side = draw(st.sampled_from(["x+", "x-", "y+", "y-"]))
         ox = {"x+": nx / 2 + r + g, "x-": -(nx / 2 + r + g)}.get(side, draw(st.integers(-8, 8)) / 16 * nx)
         oy = {"y+": ny / 2 + r + g, "y-": -(ny / 2 + r + g)}.get(side, draw(st.integers(-8, 8)) / 16 * ny)
@@ -1069,7 +1131,7 @@ def o_graph_other(case, T):
         T.exclude("gap_below_2px_emptiness_not_decided")
     else:
         rel = "overlapping"
-    T.cls("pair:%s<%s" % (la, lb))
+    T.cls("crs:%s<%s" % (crs_kind(la), crs_kind(lb)))
     T.cls("delta<0.01px" if dmax < 0.01 else "delta<0.1px" if dmax < 0.1 else "delta>=0.1px")
     for nm, kl in (("dst", dgb["klass"]), ("src", sgb["klass"])):
         T.cls(nm + ":" + ("rotated" if any(k in kl for k in ("r90", "r270", "shear", "rot")) else "mirrored" if "mirror" in kl or "r180" in kl else "north_up"))
@@ -1138,11 +1200,11 @@ def _is_d8(sub, case, msg):
 
 
 def build(chk: Check) -> None:
-    chk.sub("query_geom_same", o_geom_same, strategy=s_geom_same(), n={"quick": 1600, "thorough": 80000}, budget_s={"quick": 60, "thorough": 150})
-    chk.sub("query_bbox_same", o_bbox_same, strategy=s_bbox_same(), n={"quick": 1000, "thorough": 50000}, budget_s={"quick": 60, "thorough": 120})
-    chk.sub("query_other_crs", o_query_other, strategy=s_query_other(), n={"quick": 1400, "thorough": 70000}, budget_s={"quick": 60, "thorough": 150})
-    chk.sub("graph_linear", o_graph_linear, strategy=s_graph_linear(), n={"quick": 800, "thorough": 30000}, budget_s={"quick": 60, "thorough": 150})
-    chk.sub("graph_rotated", o_graph_rot, strategy=s_graph_rot(), n={"quick": 300, "thorough": 12000}, budget_s={"quick": 60, "thorough": 120})
-    chk.sub("graph_other_crs", o_graph_other, strategy=s_graph_other(), n={"quick": 400, "thorough": 18000}, budget_s={"quick": 60, "thorough": 180})
-    chk.sub("locate_enum", o_locate, enum=e_locate, exhaustive_tiers=("thorough",), budget_s={"quick": 60, "thorough": 120})
+    chk.sub("query_geom_same", o_geom_same, strategy=s_geom_same(), n={"quick": 1600, "thorough": 80000}, budget_s={"quick": 60, "thorough": 140})
+    chk.sub("query_bbox_same", o_bbox_same, strategy=s_bbox_same(), n={"quick": 1000, "thorough": 50000}, budget_s={"quick": 60, "thorough": 110})
+    chk.sub("query_other_crs", o_query_other, strategy=s_query_other(), n={"quick": 1400, "thorough": 70000}, budget_s={"quick": 60, "thorough": 140})
+    chk.sub("graph_linear", o_graph_linear, strategy=s_graph_linear(), n={"quick": 800, "thorough": 30000}, budget_s={"quick": 60, "thorough": 140})
+    chk.sub("graph_rotated", o_graph_rot, strategy=s_graph_rot(), n={"quick": 300, "thorough": 12000}, budget_s={"quick": 60, "thorough": 110})
+    chk.sub("graph_other_crs", o_graph_other, strategy=s_graph_other(), n={"quick": 400, "thorough": 18000}, budget_s={"quick": 60, "thorough": 170})
+    chk.sub("locate_enum", o_locate, enum=e_locate, exhaustive_tiers=("thorough",), budget_s={"quick": 60, "thorough": 90})
     chk.known("D8", _is_d8)
